@@ -514,4 +514,145 @@ theorem rule_list_index (w : World) (env : Env) (es : List Expr) (k : Nat) (el :
       cases x <;> simp [force] at h <;> exact h
     rw [hel, hxv]
 
+/-! ### constant key out of a dictionary literal -/
+
+theorem evalAll_cons_inv (d : Den) (ds : List Den) (env : Env) (out : List Val) (h : evalAll (d :: ds) env = .ok out) :
+    ∃ x xs, d env = .ok x ∧ evalAll ds env = .ok xs ∧ out = x :: xs := by
+  simp only [evalAll, List.map, seqRes] at h
+  cases hd : d env with
+  | error e => simp [hd, bind, Except.bind] at h
+  | ok x =>
+    cases hs : seqRes (ds.map (· env)) with
+    | error e => simp [hd, hs, bind, Except.bind] at h
+    | ok xs =>
+      simp only [hd, hs, bind, Except.bind, pure, Except.pure, Except.ok.injEq] at h
+      exact ⟨x, xs, rfl, hs, h.symm⟩
+
+theorem pyEq_const (k c : Const) (kv cv : Val) (hk : constVal k = .ok kv) (hc : constVal c = .ok cv)
+    (hkind : (∃ s, k = .str s) ∨ (∃ n, k = .int n)) : pyEq kv cv = constKeyEq c k := by
+  rcases hkind with ⟨s, rfl⟩ | ⟨n, rfl⟩
+  · simp only [constVal, Except.ok.injEq] at hk; subst hk
+    cases c <;> simp [constVal] at hc <;> subst hc <;> simp [pyEq, asInt, Val.beq, constKeyEq]
+    all_goals (rw [Bool.eq_iff_iff]; simp only [beq_iff_eq, Const.str.injEq, Const.int.injEq]; exact eq_comm)
+  · simp only [constVal, Except.ok.injEq] at hk; subst hk
+    cases c <;> simp [constVal] at hc <;> subst hc <;> simp [pyEq, asInt, Val.beq, constKeyEq]
+    all_goals (rw [Bool.eq_iff_iff]; simp only [beq_iff_eq, Const.str.injEq, Const.int.injEq]; exact eq_comm)
+
+theorem dictLookup_sem (w : World) (env : Env) (k : Const) (kvl : Val) (hk : constVal k = .ok kvl)
+    (hkind : (∃ s, k = .str s) ∨ (∃ n, k = .int n)) (r : Expr) (v : Val) :
+    ∀ (ks vs : List Expr) (kv vv : List Val), allConstKeys ks = true →
+      evalAll (denLLz w ks) env = .ok kv → evalAll (denLLz w vs) env = .ok vv →
+      (ks.zip vs).findSome? (fun p => match p.1 with
+        | .const c => if constKeyEq c k then some p.2 else Option.none
+        | _ => Option.none) = some r →
+      lookupKey kvl kv vv = some v → denLz w r env = .ok v
+  | [], vs, kv, vv, _, _, _, hf, _ => by simp at hf
+  | c0 :: ks, [], kv, vv, _, _, _, hf, _ => by simp at hf
+  | c0 :: ks, v0 :: vs, kv, vv, hc, hkv, hvv, hf, hl => by
+    cases c0 with
+    | const c =>
+      simp only [allConstKeys] at hc
+      simp only [denLLz] at hkv hvv
+      obtain ⟨k0, kv', hk0, hkv', rfl⟩ := evalAll_cons_inv _ _ env kv hkv
+      obtain ⟨x0, vv', hx0, hvv', rfl⟩ := evalAll_cons_inv _ _ env vv hvv
+      simp only [denLz] at hk0
+      have hpe := pyEq_const k c kvl k0 hk hk0 hkind
+      simp only [List.zip_cons_cons, List.findSome?_cons] at hf
+      simp only [lookupKey] at hl
+      by_cases hm : constKeyEq c k = true
+      · simp only [hm, if_true, Option.some.injEq] at hf
+        rw [hpe, hm] at hl
+        simp only [if_true, Option.some.injEq] at hl
+        subst hf hl
+        exact hx0
+      · simp only [hm] at hf
+        rw [hpe] at hl
+        simp only [hm] at hl
+        exact dictLookup_sem w env k kvl hk hkind r v ks vs kv' vv' hc hkv' hvv' (by simpa using hf) (by simpa using hl)
+    | _ => simp [allConstKeys] at hc
+
+/-- **{k0: v0, …}[k]  ⇒  vi** and **{…}.a ⇒ vi**: whenever the lookup on the literal evaluates, the selected value
+    expression evaluates to the same value -/
+theorem rule_dict_key (w : World) (env : Env) (ks vs : List Expr) (k : Const) (r : Expr) (v : Val)
+    (hkind : (∃ s, k = .str s) ∨ (∃ n, k = .int n)) (hd : dictLookup ks vs k = some r)
+    (h : denLz w (.sub (.dict ks vs) (.const k)) env = .ok v) : denLz w r env = .ok v := by
+  unfold dictLookup at hd
+  by_cases hc : allConstKeys ks = true
+  · simp only [hc, if_true] at hd
+    simp only [denLz] at h
+    cases hkv : evalAll (denLLz w ks) env with
+    | error e => simp [hkv, bind, Except.bind] at h
+    | ok kv =>
+      cases hvv : evalAll (denLLz w vs) env with
+      | error e => simp [hkv, hvv, bind, Except.bind] at h
+      | ok vv =>
+        simp only [hkv, hvv, bind, Except.bind] at h
+        by_cases hlen : kv.length = vv.length
+        · simp only [hlen, if_true, mkDictLz, mkDict] at h
+          by_cases hcl : Val.cleanL kv = true
+          · simp only [hcl, if_true] at h
+            by_cases hdup : hasDupKey kv = true
+            · simp [hdup] at h
+            · simp only [hdup] at h
+              cases hkc : constVal k with
+              | error e => simp [hkc] at h
+              | ok kvl =>
+                simp only [hkc, Bool.false_eq_true, if_false] at h
+                have hsub : subscriptLz (.dict kv vv) kvl = .ok v := h
+                have hunf : subscriptLz (.dict kv vv) kvl =
+                    if kvl.clean && Val.cleanL kv then subscript (.dict kv vv) kvl else .error uncleanErr := by
+                  cases kvl <;> rfl
+                rw [hunf] at hsub
+                by_cases hcc : (kvl.clean && Val.cleanL kv) = true
+                · simp only [hcc, if_true, subscript] at hsub
+                  cases hl : lookupKey kvl kv vv with
+                  | none => simp [hl] at hsub
+                  | some x =>
+                    simp only [hl, Except.ok.injEq] at hsub; subst hsub
+                    exact dictLookup_sem w env k kvl hkc hkind r x ks vs kv vv hc hkv hvv hd hl
+                · simp [hcc] at hsub
+          · simp [hcl] at h
+        · simp [hlen] at h
+  · simp [hc] at hd
+
+theorem rule_dict_attr (w : World) (env : Env) (ks vs : List Expr) (a : String) (r : Expr) (v : Val)
+    (hd : dictLookup ks vs (.str a) = some r)
+    (h : denLz w (.attr (.dict ks vs) a) env = .ok v) : denLz w r env = .ok v := by
+  apply rule_dict_key w env ks vs (.str a) r v (Or.inl ⟨a, rfl⟩) hd
+  simp only [denLz] at h ⊢
+  cases hdv : (do
+      let kv ← evalAll (denLLz w ks) env
+      let vv ← evalAll (denLLz w vs) env
+      if kv.length = vv.length then mkDictLz kv vv else Except.error EErr.arity) with
+  | error e => rw [hdv] at h; simp [bind, Except.bind] at h
+  | ok d =>
+    rw [hdv] at h
+    simp only [bind, Except.bind, constVal] at h ⊢
+    -- the dictionary value: attribute access on it is the lookup of the string key
+    have hdict : ∃ kv vv, d = .dict kv vv ∧ Val.cleanL kv = true := by
+      cases hkv : evalAll (denLLz w ks) env with
+      | error e => simp [hkv, bind, Except.bind] at hdv
+      | ok kv =>
+        cases hvv : evalAll (denLLz w vs) env with
+        | error e => simp [hkv, hvv, bind, Except.bind] at hdv
+        | ok vv =>
+          simp only [hkv, hvv, bind, Except.bind] at hdv
+          by_cases hlen : kv.length = vv.length
+          · simp only [hlen, if_true, mkDictLz, mkDict] at hdv
+            by_cases hcl : Val.cleanL kv = true
+            · simp only [hcl, if_true] at hdv
+              by_cases hdup : hasDupKey kv = true
+              · simp [hdup] at hdv
+              · simp only [hdup, Bool.false_eq_true, if_false, Except.ok.injEq] at hdv
+                exact ⟨kv, vv, hdv.symm, hcl⟩
+            · simp [hcl] at hdv
+          · simp [hlen] at hdv
+    obtain ⟨kv, vv, rfl, hcl⟩ := hdict
+    simp only [getAttrLz, hcl, if_true, getAttr] at h
+    have hunf : subscriptLz (.dict kv vv) (.str a) =
+        if (Val.str a).clean && Val.cleanL kv then subscript (.dict kv vv) (.str a) else .error uncleanErr := rfl
+    rw [hunf]
+    simp only [Val.clean, hcl, Bool.and_self, if_true, subscript]
+    exact h
+
 end Fadl
